@@ -67,6 +67,21 @@ type Obj struct {
 	shared bool // visible to more than one thread
 	user   bool // came from the tracking allocator
 	site   string
+	gen    int // state generation that owns this copy (copy-on-write across states)
+}
+
+// wobj returns a copy of o that this state may modify.
+func (st *State) wobj(o *Obj) *Obj {
+	if o.gen == st.gen {
+		return o
+	}
+	n := *o
+	n.gen = st.gen
+	if o.bytes != nil {
+		n.bytes = append([]*Term(nil), o.bytes...)
+	}
+	st.objs[o.id] = &n
+	return &n
 }
 
 func (o *Obj) ensure() {
@@ -85,7 +100,7 @@ func (st *State) newObj(size int, kind, label string) *Obj {
 	if size >= objMaxSize {
 		st.abort(abUnsupported, fmt.Sprintf("object too large: %d bytes (%s)", size, label))
 	}
-	o := &Obj{id: len(st.objs), size: size, kind: kind, label: label, owner: st.curThreadID()}
+	o := &Obj{id: len(st.objs), size: size, gen: st.gen, kind: kind, label: label, owner: st.curThreadID()}
 	st.objs = append(st.objs, o)
 	st.nAllocs++
 	return o
@@ -139,6 +154,7 @@ func (st *State) storeBits(addr uint64, n int, v *Term) {
 		panic(fmt.Sprintf("storeBits width %d into %d bytes", v.W, n))
 	}
 	o, off := st.resolve(addr, n, "store")
+	o = st.wobj(o)
 	st.noteAccess(o, off, n, true)
 	if o.bytes == nil {
 		if v.IsConst() && v.C == 0 {
@@ -176,6 +192,15 @@ func (st *State) fromHandle(h uint64) interface{} {
 }
 
 func (st *State) typeHandle(T types.Type) uint64 {
+	if h, ok := st.typeHandlesP[T]; ok {
+		return h
+	}
+	h := st.typeHandleSlow(T)
+	st.typeHandlesP[T] = h
+	return h
+}
+
+func (st *State) typeHandleSlow(T types.Type) uint64 {
 	k := "T:" + types.TypeString(T, nil)
 	if h, ok := st.typeHandles[k]; ok {
 		return h
@@ -412,17 +437,15 @@ func (st *State) boxHandle(v Value) uint64 {
 type box struct{ v Value }
 
 func (st *State) offsets(u *types.Struct) []int64 {
-	if o, ok := st.p.offCache[u]; ok {
-		return o
+	if o, ok := st.p.offs.Load(u); ok {
+		return o.([]int64)
 	}
 	fs := make([]*types.Var, u.NumFields())
 	for i := range fs {
 		fs[i] = u.Field(i)
 	}
 	o := sizes.Offsetsof(fs)
-	st.p.offMu.Lock()
-	st.p.offCache[u] = o
-	st.p.offMu.Unlock()
+	st.p.offs.Store(u, o)
 	return o
 }
 
